@@ -21,7 +21,8 @@ from amaranth.hdl import Format, Signal, Shape
 FILES = ["amaranth/hdl/_ast.py", "amaranth/sim/_pyrtl.py", "amaranth/sim/_pyeval.py", "amaranth/hdl/_dsl.py"]
 
 PRINT_END = "\n"       # Print(*args, sep=" ", end="\n") follows Python's print(); vlib/gen/stmts.py builds Print(Format(...))
-STR_GRID = {8: [0x61, 0x00, 0x7e], 16: [0x6261, 0x0061, 0xa9c3, 0x0000], 24: [0x636261, 0x00a9c3, 0x000041]}
+# byte strings are LSB first; NUL bytes are padding wherever they stand (Verilog-like), so 0x4100 is "A" as well
+STR_GRID = {8: [0x61, 0x00, 0x7e], 16: [0x6261, 0x0061, 0xa9c3, 0x0000, 0x4100], 24: [0x636261, 0x00a9c3, 0x000041]}
 
 
 # ---------------------------------------------------------------------------------------- part A: programs
@@ -237,7 +238,7 @@ def check_program(job):
         fvars[name] = v
         assumptions.append(c)
     from checks.c02 import impl_state
-    grid = [(0x61, 0x6261), (0x00, 0xa9c3), (0x7e, 0x0061)] if uses_s(prog) else [(0x61, 0x6261)]
+    grid = [(0x61, 0x6261), (0x00, 0xa9c3), (0x7e, 0x0061), (0x41, 0x4100)] if uses_s(prog) else [(0x61, 0x6261)]
     results = {k: dict(base, kind=k, assertion=a, status=PROVED, detail="", symbolic="all registers, inputs, FSM states, reset")
                for k, a in (("print", "a Print is emitted at an active edge iff the statement is active; its text is str.format of the user's "
                                       "format string on the operands in their own shapes; nothing is emitted at other instants"),
